@@ -471,7 +471,7 @@ def shrink(case):
 
 def plan(tier):
   if tier == 'quick':
-    return {'batches': 48, 'timeout': 600, 'a_plans': 400, 'b_programs': 10}
+    return {'batches': 48, 'timeout': 600, 'a_plans': 400, 'b_programs': 4}
   return {'batches': 480, 'timeout': 2400, 'a_plans': 4000, 'b_programs': 60}
 
 
